@@ -95,12 +95,19 @@ Qed.
 
 Lemma content_total F D l : forallb (keyb F D) (map fst l) = true -> forallb (fun kv => negb (is_prop (snd kv))) l = true ->
   Forall (fun kv => forall st, exists j st', get_state D (snd kv) st = Ok (j, st')) l ->
-  forall acc st, exists cont st', content_of (fun x s0 => get_state D x s0) l acc st = Ok (cont, st').
+  forall acc st, NoDup (map fst acc ++ map (fun kv => ktext (fst kv)) l) ->
+    exists cont st', content_of (fun x s0 => get_state D x s0) l acc st = Ok (cont, st').
 Proof.
-  intros Hk Hp Hl. induction Hl as [|[k x] l Hx Hl IH]; intros acc st; cbn [content_of]; [eauto|].
+  intros Hk Hp Hl. induction Hl as [|[k x] l Hx Hl IH]; intros acc st Hnd; cbn [content_of]; [eauto|].
   cbn [map fst forallb snd] in Hk, Hp. apply andb_prop in Hk. destruct Hk as [Hk1 Hk2]. apply andb_prop in Hp. destruct Hp as [Hp1 Hp2].
-  apply negb_true_iff in Hp1. rewrite Hp1. cbn [snd] in Hx. destruct (Hx st) as [j [st1 ->]]. cbn [bind].
-  unfold keyb in Hk1. destruct (k_val k); [|discriminate]. apply IH; assumption.
+  apply negb_true_iff in Hp1. rewrite Hp1. cbn [snd] in Hx.
+  unfold keyb in Hk1. destruct (k_val k) as [sc|] eqn:Ek; [|discriminate].
+  cbn [map fst] in Hnd. unfold ktext in Hnd at 1. rewrite Ek in Hnd.
+  (* pairwise distinct spellings (itemsb): dict_get_state does not refuse *)
+  rewrite (nodup_no_collision k sc acc _ Ek Hnd).
+  destruct (Hx st) as [j [st1 ->]]. cbn [bind].
+  rewrite jset_fresh_notin by (intro Hin; apply NoDup_remove_2 in Hnd; apply Hnd; apply in_or_app; left; exact Hin).
+  apply IH; try assumption. rewrite map_app. cbn [map fst]. apply NoDup_shift. exact Hnd.
 Qed.
 
 Lemma kts_total F D ks : forallb (keyb F D) ks = true -> exists kts, key_type_states D ks = Ok kts.
@@ -124,15 +131,17 @@ Proof.
     cbn [get_state]. destruct (states_total D l) with (st := st) as [js [st' ->]]; [|cbn [bind]; eauto].
     rewrite Forall_forall in *. intros x Hx. apply IH; [exact Hx|apply Hall; exact Hx].
   - intros id mo c l IH Hf st. cbn [fragb] in Hf. apply andb_prop in Hf. destruct Hf as [Hf Hall]. apply andb_prop in Hf. destruct Hf as [_ Hit].
-    unfold itemsb in Hit. apply andb_prop in Hit. destruct Hit as [Hit H4]. apply andb_prop in Hit. destruct Hit as [Hit _]. apply andb_prop in Hit. destruct Hit as [H1 _].
+    unfold itemsb in Hit. apply andb_prop in Hit. destruct Hit as [Hit H4]. apply andb_prop in Hit. destruct Hit as [Hit _]. apply andb_prop in Hit. destruct Hit as [H1 H2].
+    apply nodup_texts_NoDup in H2.
     rewrite forallb_forall in Hall. cbn [get_state]. destruct (fresh st) as [ktid st0]. destruct (kts_total F D _ H1) as [kts ->]. cbn [bind].
-    destruct (content_total F D l H1 H4) with (acc := @nil (pstr * json)) (st := st0) as [cont [st' ->]]; [|cbn [bind]; eauto].
+    destruct (content_total F D l H1 H4) with (acc := @nil (pstr * json)) (st := st0) as [cont [st' ->]]; [|exact H2|cbn [bind]; eauto].
     rewrite Forall_forall in *. intros x Hx. apply IH; [exact Hx|apply Hall; exact Hx].
   - intros id mo c f l IHf IH Hf st. cbn [fragb] in Hf. apply andb_prop in Hf. destruct Hf as [Hf Hall]. apply andb_prop in Hf. destruct Hf as [Hf Hff].
     apply andb_prop in Hf. destruct Hf as [_ Hit].
-    unfold itemsb in Hit. apply andb_prop in Hit. destruct Hit as [Hit H4]. apply andb_prop in Hit. destruct Hit as [Hit _]. apply andb_prop in Hit. destruct Hit as [H1 _].
+    unfold itemsb in Hit. apply andb_prop in Hit. destruct Hit as [Hit H4]. apply andb_prop in Hit. destruct Hit as [Hit _]. apply andb_prop in Hit. destruct Hit as [H1 H2].
+    apply nodup_texts_NoDup in H2.
     rewrite forallb_forall in Hall. cbn [get_state]. destruct (fresh st) as [did st0]. destruct (fresh st0) as [ktid st0']. destruct (kts_total F D _ H1) as [kts ->]. cbn [bind].
-    destruct (content_total F D l H1 H4) with (acc := @nil (pstr * json)) (st := st0') as [cont [st1 ->]].
+    destruct (content_total F D l H1 H4) with (acc := @nil (pstr * json)) (st := st0') as [cont [st1 ->]]; [|exact H2|].
     { rewrite Forall_forall in *. intros x Hx. apply IH; [exact Hx|apply Hall; exact Hx]. }
     cbn [bind]. destruct (IHf Hff st1) as [jf [st2 ->]]. cbn [bind]. eauto.
   - intros id mo c sh l IH Hf st. cbn [fragb] in Hf. apply andb_prop in Hf. destruct Hf as [Hf Hall]. apply andb_prop in Hf. destruct Hf as [Hf _].
